@@ -52,7 +52,7 @@ var c16Recorders = map[string]func(t *testing.T, rec *ev.Rec, u c16Universe, ste
 		defer cu.c.Close()
 		cu.c.App.NewliqKeeper.SetParams(cu.c.Ctx(), liqV2types.Params{LiquidationBatchSize: uint64([]int{200, 3}[u.Variant%2])})
 		cu.c.Tape = &sim.Tape{}
-		r := newCdpRunner(cu, rng("C16", u.Name, u.Variant), rec, cdpCfg{priceMoves: true, bids: true, lockers: true, unsolicited: true, liquidateMsg: true, limitBids: true, unsafeBias: true, maxGap: 3 * 24 * time.Hour})
+		r := newCdpRunner(cu, rng("C16", u.Name, u.Variant), rec, cdpCfg{priceMoves: true, bids: true, lockers: true, unsolicited: true, liquidateMsg: true, limitBids: true, unsafeBias: true, reserve: true, maxGap: 3 * 24 * time.Hour})
 		r.run(steps)
 		// make sure the tape ends on a block boundary so that the last app hash covers everything
 		r.block(6 * time.Second)
